@@ -636,8 +636,6 @@ Section Alias.
 End Alias.
 
 (* ---- sequences of inline steps ------------------------------------------------------------------------- *)
-Definition inline_only (l : list fstep) : bool :=
-  forallb (fun st => match st with FInline _ => true | FAlias _ _ => false end) l.
 
 Theorem inline_steps_preserve (apply : positive -> list sval -> sval) (r : positive) :
   forall steps d dn,
